@@ -13,4 +13,9 @@ CLAUSES = {'get', 'get-lists-pair-twice', 'get_components', 'entity_exists', 'ha
            'entities', 'create-entity-id', 'outcome', 'shape', 'truncated', 'hang', 'remove-result',
            'remove-matches-subtype', 'return-value'}
 generate, project, oracle, nontrivial, stats = _world.make(
-    'C01', TAGS, CLAUSES, dict(n_proc=(0, 1), handlers=0.2, w=dict(addproc=0.5, rmproc=0, dispatch=0, enable=0.5)))
+    'C01', TAGS, CLAUSES, [
+        dict(n_proc=(0, 1), handlers=0.2, w=dict(addproc=0.5, rmproc=0, dispatch=0, enable=0.5)),
+        # histories in which lifecycle callbacks raise half-way through an operation
+        dict(n_comp=(2, 5), n_proc=(0, 1), handlers=0.8, raises=0.8, dup_in_create=0.3,
+             w=dict(addproc=0.3, rmproc=0, dispatch=0, enable=0.5, delete=5, process=3, create=5)),
+    ])
